@@ -60,6 +60,13 @@ def in_domain_batches(ctx, lang):
     # 3. licensed derivations of the real rule functions over the shipped lexicon and unary table
     for _ in range(60 if ctx.quick else 1500):
         yield 'licensed', rc.licensed_batch(rng, lang)
+    # 4. the deepest derivations a sentence below the default --max-length (250 tokens) can have: one leaf added per step
+    for _ in range(2 if ctx.quick else 12):
+        t = gen.deep_chain(rng, lang, depth=rng.randint(150, 249), full_tokens=rng.random() < 0.5)
+        b = [[ScoredTree(t, rc.score(rng))]]
+        if rng.random() < 0.5:
+            b.insert(rng.randint(0, 1), rc.sentence(rng, lang))
+        yield 'deep', b
 
 
 def malformed_batches(ctx, lang):
@@ -105,10 +112,10 @@ def check_batch(lang, fs, batch, fail, kind=''):
     """the property on the implementation; returns {format: what to_string did}"""
     res = {}
     for f in fs:
-        r = rc.render(lang, copy.deepcopy(batch), f)        # one rendering of fresh objects: histories are C18's subject
+        r = rc.render(lang, rc.fresh(batch), f)        # one rendering of fresh objects: histories are C18's subject
         res[f] = r
         if r[0] != 'ok':
-            which = [i for i, sent in enumerate(batch, 1) if rc.render(lang, copy.deepcopy([sent]), f)[0] != 'ok']
+            which = [i for i, sent in enumerate(batch, 1) if rc.render(lang, rc.fresh([sent]), f)[0] != 'ok']
             fail('render_raises', f'[{lang}] to_string(format={f!r}) raises {r[1:]!r} on a batch of {len(batch)} sentence(s) ({kind}); '
                                   f'sentences that fail alone: {which or "none - only the batch fails"}',
                  {'lang': lang, 'format': f, 'batch': rc.enc_batch(batch), 'kind': kind})
@@ -154,7 +161,7 @@ def run(ctx):
             if len(ctx.samples) < 2 and kind.startswith('label:unary'):
                 ctx.sample({'lang': lang, 'kind': kind, 'sentences': len(batch), 'prolog': res.get('prolog', ('', ''))[1][-300:]})
         for kind, batch in malformed_batches(ctx, lang):
-            res = {f: rc.render(lang, copy.deepcopy(batch), f) for f in fs}
+            res = {f: rc.render(lang, rc.fresh(batch), f) for f in fs}
             add_case(lang, kind, batch, res)
             sig = rc.batch_sig(batch)
             for f, r in res.items():
@@ -175,7 +182,7 @@ def run(ctx):
         level='proof',
         rule='cases = to_string(batch, format=f) for every offline format f of the language: batches with every (op_string, op_symbol) pair of the '
              'translated grammar vocabulary on a binary / unary node above licensed material (full and bare tokens), the failure placeholder alone / '
-             'first / last / between parsed sentences, random licensed derivations over the shipped lexicon and unary table (n-best lists), and a '
+             'first / last / between parsed sentences, random licensed derivations over the shipped lexicon and unary table (n-best lists), chains of 150-249 binary steps (the deepest derivations below --max-length), and a '
              'malformed stream (labels of the other grammar, unk, tokens without word, arbitrary trees) on which only model and implementation are '
              'compared; non-trivial = more than one sentence or an inner node; distinct by (language, format, batch)',
         assumptions=['formats jigg_xml_ccg2lambda and ccg2lambda enter depccg.semantics (nltk) and cannot run here: listed in unmodelled_formats, not claimed',
